@@ -56,7 +56,23 @@ def oracle_finding(run, f):
     run.known_finding(f, res.get('still_fails', False), res.get('detail', ''))
     return res
 
-PROPS = {'C12': C12}
+# ------------------------------------------------------------------------------------------ C16
+def gen_cli(run):
+    return run.generate('cli2v(cli/main.py:main match arms)', ['-W', 'ignore', os.path.join(VERIF, 'tools', 'cli2v.py'), REPO], 'CliGen.v')
+
+def C16(run):
+    run.static()
+    gen_cli(run)
+    run.dyn_compile(['CliGen', 'CliProps'])
+    run.props()
+    run.suite('cli', 'cli_corr.py', [run.seed, 1500 if run.tier == 'thorough' else 240], 'CLI')
+    for f in run.findings():
+        run.known_finding(f, run.known_hits.get(f['id'], 0) > 0, 'not reproduced by the cli suite on this run')
+    run.assumptions += ['Python facts written as definitions of the IR interpreter (Cli/CliIR.v): print(x) writes x and a newline, print(x, end=y) writes x then y, '
+                        'an uncaught exception leaves stdout as it was and exits with status 1, arguments are evaluated before the call',
+                        'the library (parse/set_value/remove_value/rebuild/contains_error) is abstract in the theorems: they hold for every library behaviour']
+
+PROPS = {'C12': C12, 'C16': C16}
 
 def main():
     ap = argparse.ArgumentParser()
